@@ -298,16 +298,10 @@ Section Main.
   Qed.
 
   (* the same, as the boolean predicate that judges the implementation *)
-  Definition mk_subL : option (list nat) :=
-    match step 0 n with Some k => mk_knees (mk (k + 1)) | None => None end.
-  Definition mk_subR : option (list nat) :=
-    match step 0 n with
-    | Some k => mk_knees (multi_knee cost (shift2 (k + 1) straight) (shift2 (k + 1) knee1) t1 t2 (n - (k + 1)))
-    | None => None
-    end.
   Lemma nat_list_eqb_refl l : nat_list_eqb l l = true.
   Proof. induction l as [|x l IH]; cbn; auto. rewrite Nat.eqb_refl. exact IH. Qed.
-  Theorem mk_holds_model : mk_holds lo n (step 0 n) (mk_obs (mk n)) mk_subL mk_subR = 0.
+  Theorem mk_holds_model :
+    mk_holds lo n (step 0 n) (mk_obs (mk n)) (mk_subL cost straight knee1 t1 t2 n) (mk_subR cost straight knee1 t1 t2 n) = 0.
   Proof.
     destruct mk_total as (ks & tr & He & Hl & _ & HS & HF & Hspec).
     rewrite He. cbn [mk_obs mk_holds].
@@ -316,9 +310,18 @@ Section Main.
     { unfold all_in_range. rewrite forallb_forall. rewrite Forall_forall in HF. intros x Hx.
       destruct (HF x Hx). apply andb_true_intro. split; apply Nat.leb_le; lia. }
     cbn [negb]. apply Nat.leb_le in Hl. rewrite Hl. cbn [negb].
-    unfold mk_subL, mk_subR. destruct (step 0 n) as [k|] eqn:Hs.
+    unfold mk_subL, mk_subR, mk_runL, mk_runR. destruct (step 0 n) as [k|] eqn:Hs.
     - destruct (mk_decomp k Hs) as (kl & kr & H1 & H2 & H3). rewrite H1, H2.
       rewrite He in H3. cbn [mk_knees] in H3. injection H3 as ->. rewrite nat_list_eqb_refl. reflexivity.
     - pose proof (mk_empty Hs) as H3. rewrite He in H3. cbn [mk_knees] in H3. injection H3 as ->. reflexivity.
   Qed.
 End Main.
+
+(* ---------- a concrete oracle valuation meeting the hypothesis (non-vacuity; used by Props/C02.v) ---------- *)
+Definition ex_knee1 (l r : nat) : option nat := if 3 <? r - l then Some ((r - l) / 2) else None.
+Lemma ex_knee1_in_range n : knee_in_range ex_knee1 3 1 n.
+Proof.
+  intros l r k _ Ht Hk. unfold ex_knee1 in Hk. destruct (Nat.ltb_spec 3 (r - l)); [|discriminate].
+  assert (Hk' : (r - l) / 2 = k) by congruence. clear Hk. rewrite <- Hk'. assert (H2 : 2 <> 0) by discriminate.
+  pose proof (Nat.div_mod (r - l) 2 H2). pose proof (Nat.mod_upper_bound (r - l) 2 H2). lia.
+Qed.
